@@ -131,4 +131,25 @@ example : (match refLoop exModel 6 exRows with
     | .error _ => false) = true := by decide
 end
 
+
+/-- **C04 (root set)** RFC 7047: when no table of a schema is marked as root, every table is part of
+    the root set -- nothing is garbage collected for want of a strong reference -/
+theorem no_root_marked_all_root (σ : DbModel) (h : ∀ p ∈ σ.schema, p.2.isRoot = false) (t : String) :
+    isRootTable σ t = true := by
+  unfold isRootTable
+  split
+  · rfl
+  · have : σ.schema.all (fun p => !p.2.isRoot) = true := by
+      apply List.all_eq_true.mpr
+      intro p hp
+      simp [h p hp]
+    simp [this]
+
+theorem no_root_marked_nothing_collected (σ : DbModel) (h : ∀ p ∈ σ.schema, p.2.isRoot = false) (rs : Rows) :
+    unreferenced σ rs = [] := by
+  unfold unreferenced
+  apply List.filterMap_eq_nil_iff.mpr
+  intro p _
+  simp [no_root_marked_all_root σ h p.1]
+
 end Ovsdb.C04
